@@ -183,6 +183,9 @@ type c06Conn struct {
 	ready    time.Time
 	deadline time.Time
 	closed   bool
+	// a reader may report an error together with the last bytes it has (io.Reader): the end of the stream with the final chunk, and
+	// a deadline that will pass before the next chunk together with the chunk before it - as wrappers that hold a prefix do
+	errWithData bool
 }
 type c06TimeoutErr struct{}
 
@@ -217,6 +220,15 @@ func (c *c06Conn) Read(p []byte) (int, error) {
 				c.idx++
 				if c.idx < len(c.chunks) {
 					c.ready = now.Add(c.gaps[c.idx])
+					if c.errWithData && !dl.IsZero() && c.ready.After(dl) && n > 0 {
+						// nothing more arrives before the deadline: the reader waits it out and reports the bytes with the timeout
+						c.mu.Unlock()
+						time.Sleep(dl.Sub(now))
+						return n, c06TimeoutErr{}
+					}
+				} else if c.errWithData && n > 0 {
+					c.mu.Unlock()
+					return n, io.EOF
 				}
 			}
 			c.mu.Unlock()
@@ -244,6 +256,8 @@ func (c *c06Conn) SetReadDeadline(t time.Time) error  { return c.SetDeadline(t) 
 func (c *c06Conn) SetWriteDeadline(t time.Time) error { return nil }
 
 const c06Timeout = 100 * time.Millisecond
+
+var c06ErrWithData bool // set per vector by the driver loop
 
 func c06Classify(d string, err error) (string, string) {
 	switch {
@@ -282,7 +296,10 @@ func c06RunStream(v *c06Vector, data []byte, unitLen int, label string, strict b
 		Timeout bool     `json:"timeout"`
 	}
 	verifutil.Recode(v.Expect, &exp)
-	conn := &c06Conn{}
+	conn := &c06Conn{errWithData: c06ErrWithData}
+	if c06ErrWithData {
+		label += " [reader reports errors together with the last bytes]"
+	}
 	prev := 0
 	gap := time.Duration(0)
 	var cutText []string
@@ -646,9 +663,11 @@ func TestVerifC06(t *testing.T) {
 				if vi < 2 {
 					res.Sample(fmt.Sprintf("%+v", v.Hello))
 				}
+				c06ErrWithData = vi%2 == 1
 				c06RunStream(v, data, len(rec), fmt.Sprintf("tls hello rec=3.%d hs=%d ver=3.%d sid=%d exts=%+v", v.Hello.RecMinor, v.Hello.HsType, v.Hello.VMinor, v.Hello.Sid, v.Hello.Exts), true, res)
 				_ = rec
 			case "http":
+				c06ErrWithData = vi%2 == 1
 				c06RunStream(v, c06HttpHead(v), len(c06HttpHead(v)), fmt.Sprintf("http %s %+v", v.Http.Method, v.Http.Hdrs), true, res)
 			case "junk":
 				// byte strings that are none of these: random, truncated and bit-flipped hellos
